@@ -351,6 +351,11 @@ static ASMJIT_FAVOR_SIZE Error validate(InstDB::Mode mode, const BaseInst& inst,
               return make_error(Error::kInvalidPhysId);
             }
 
+            // The base register must exist in the target mode (r8+ need a REX prefix, which 32-bit mode doesn't have).
+            if (ASMJIT_UNLIKELY(!m.is_reg_home() && Support::bit_test(vd->allowed_reg_mask[size_t(base_type)], base_id) == 0)) {
+              return make_error(Error::kInvalidPhysId);
+            }
+
             // Physical base id.
             reg_mask = Support::bit_mask<RegMask>(base_id);
             combined_reg_mask |= reg_mask;
@@ -428,6 +433,10 @@ static ASMJIT_FAVOR_SIZE Error validate(InstDB::Mode mode, const BaseInst& inst,
           uint32_t index_id = m.index_id();
           if (index_id < Operand::kVirtIdMin) {
             if (ASMJIT_UNLIKELY(index_id >= 32)) {
+              return make_error(Error::kInvalidPhysId);
+            }
+
+            if (ASMJIT_UNLIKELY(Support::bit_test(vd->allowed_reg_mask[size_t(index_type)], index_id) == 0)) {
               return make_error(Error::kInvalidPhysId);
             }
 
@@ -555,6 +564,11 @@ static ASMJIT_FAVOR_SIZE Error validate(InstDB::Mode mode, const BaseInst& inst,
     // Illegal use of 64-bit register in 32-bit mode.
     if (ASMJIT_UNLIKELY(Support::test(combined_op_flags, InstDB::OpFlags::kRegGpq))) {
       return make_error(Error::kInvalidUseOfGpq);
+    }
+
+    // There is no REX prefix in 32-bit mode.
+    if (ASMJIT_UNLIKELY(inst.has_option(InstOptions::kX86_Rex))) {
+      return make_error(Error::kInvalidRexPrefix);
     }
   }
   else {
